@@ -16,6 +16,9 @@ Families     (besides corpus / mutation / grammar-driven errors / error paths by
                          re-prepare, nev_prepare_argc_argv or direct prog->params[]; a free()/realloc() of a host buffer by libnev
                          is a free of an unknown block for the monitor (and is withheld, reported as @@HOST), the buffers are
                          compared with copies afterwards.  Keys host-memory-freed:<function>, host-memory-written.
+             builtin / string-op  one run-and-dispose probe per built-in function (ids from front/libmath.h) and per
+                         string-producing operator path (concat per type pair, comparison temporaries, slices, copies), 25 calls
+                         in a loop each.
              exc-site    one probe per raise site of the VM (exception_sites(): grep of `running = VM_EXCEPTION|VM_ERROR` in
                          back/vmexec.c, back/libvm.c by enclosing function/macro; EXC_SITE_PROBES maps sites to probes) x
                          uncaught / caught / catch-all / caught 12x in a loop / caught then normal work / other handler;
@@ -575,7 +578,8 @@ def builtin_ids(repo):
         txt = open(os.path.join(repo, "front", "libmath.h")).read()
     except OSError:
         return []
-    return [m for m in re.findall(r"\bLIB_MATH_([A-Z_]+)\b\s*(?:=\s*\d+\s*)?,?", txt.split("libmath_func")[0]) if m != "UNKNOWN"]
+    m = re.search(r"typedef\s+enum\s+libmath_func\s*\{(.*?)\}", txt, re.S)
+    return [x for x in re.findall(r"\bLIB_MATH_([A-Z_]+)\b", m.group(1) if m else "") if x != "UNKNOWN"]
 
 
 def builtin_cases(repo):
